@@ -197,7 +197,7 @@ impl<'a> Parser<'a> {
 
         read_outputs.sort_by(|(_, a), (_, b)| a.start.cmp(&b.start));
 
-        let virtual_signals = self
+        let mut virtual_signals = self
             .virtual_signals
             .into_iter()
             .map(|(name, (span, expr))| {
@@ -209,7 +209,9 @@ impl<'a> Parser<'a> {
                     span,
                 )
             })
-            .collect();
+            .collect::<Vec<_>>();
+
+        virtual_signals.sort_by(|(_, a), (_, b)| a.start.cmp(&b.start));
 
         ParseResult {
             expected_inputs,
